@@ -1517,7 +1517,8 @@ func main() {
 	r := hx.Start()
 	r.Rule = "TypedValue/TypedStore histories with fault vectors (every single-fault position per op kind x cache state x raw state enumerated, " +
 		"plus random histories with random single and multiple faults); non-trivial = at least one call of the history failed and at least one write succeeded; " +
-		"distinct by sha256 of the op lines. Concurrent part: counter-increment and mixed stress rounds on one TypedValue."
+		"distinct by sha256 of the op lines. Flavours: store errors bare/wrapped, allocating/scratch codecs, variable-length keys, zero-length value encodings, dirty store failures, panicking compute function. " +
+		"Concurrent part on one TypedValue: counter and mixed stress, wide values, forced schedules (writer parked in the store, reader parked in its store call, readers pending behind a Compute parked in its callback), free-running timed histories checked for linearizability."
 	if lines := r.ReplayLines(); lines != nil {
 		runCase(r, 0, lines)
 		r.Finish()
